@@ -1,7 +1,7 @@
 #!/bin/bash
-# tools/seed_eval.sh <ID> [worktree]  -- confirm a seeded change and run the property's check against it.
+# tools/seed_eval.sh <ID> [worktree] [output-dir-name]  -- confirm a seeded change and run the property's check against it.
 # Uses the scratch worktree directly (VF_SRC) so /repo is not touched; prints a one-line summary.
-ID=$1; WT=${2:-/tmp/wt-$ID}; OUT=/verif/seeded/$ID
+ID=$1; WT=${2:-/tmp/wt-$ID}; OUT=/verif/seeded/${3:-$ID}
 mkdir -p $OUT
 cp $WT/SEED/patch.diff $WT/SEED/demo.py $OUT/ 2>/dev/null
 cp $WT/SEED/meta.json $OUT/agent_meta.json 2>/dev/null
